@@ -61,23 +61,35 @@ Theorem C17_read_literal_blind : forall {A B} (f : A -> B) t n,
 Proof. intros A B f. exact (read_gmap f). Qed.
 Print Assumptions C17_read_literal_blind.
 
-(* Programs over the comb fragment: executing the re-annotated program on the re-annotated stack gives the
-   re-annotated result and fails exactly when the original fails.
-   PARTIAL with respect to the property text ("all programs over the core instruction set"): the instruction
-   set here is PUSH ty lit, UNPACK ty, GET n, UPDATE n, PAIR n, UNPAIR n, CAR, CDR, PAIR, UNPAIR, COMPARE, EQ, PACK,
-   DUP, SWAP, DROP, SOME, NONE ty, LEFT ty, RIGHT ty, UNIT, sequencing, IF, IF_NONE, IF_LEFT, DIP n (type arguments
-   enter through PUSH, UNPACK, NONE, LEFT, RIGHT) over int/nat/mutez/string/bytes/bool/unit/pair/option/or values;
-   loops, collections, arithmetic, lambdas and domain types are not in this model. *)
-Theorem C17_exec_annotation_blind_partial : forall {A B} (f : A -> B) d p s,
-  exec (f d) (map (imap f) p) (map (gmap f) s) = rmap (map (gmap f)) (exec d p s).
+(* Programs.  The modelled language is the inductive type [cinstr] of Michelson/Comb.v, i.e. exactly:
+     PUSH ty lit, UNPACK ty, GET n, UPDATE n, PAIR n, UNPAIR n, CAR, CDR, PAIR, UNPAIR, COMPARE, EQ/NEQ/LT/GT/LE/GE,
+     ADD/SUB/MUL on int and nat, PACK, DUP, SWAP, DROP, SOME, NONE ty, LEFT ty, RIGHT ty, UNIT, NIL ty, CONS,
+     sequencing, IF, IF_NONE, IF_LEFT, IF_CONS, DIP n, ITER and MAP over lists, LOOP
+   over int/nat/mutez/string/bytes/bool/unit/pair/option/or/list values (type arguments enter through PUSH, UNPACK,
+   NONE, LEFT, RIGHT, NIL; MAP builds a fresh list class from the anonymous type of the first result — the place of
+   defect #49).  [exec d n p s] runs the code list p with n units of fuel (consumed by LOOP iterations only) and
+   returns Done stack / Fail / OutOfFuel.  For EVERY program of that language, every stack and every fuel: executing
+   the re-annotated program on the re-annotated stack gives the re-annotated outcome — the same failure, the same
+   fuel exhaustion (so a run that terminates with fuel n terminates with the same n after re-annotation).
+   PARTIAL with respect to the property text ("all programs over the core instruction set"): sets, maps, big_maps,
+   lambdas (LAMBDA/EXEC/APPLY), LOOP_LEFT, strings/bytes operations, mutez/timestamp arithmetic, domain types and
+   operations are not in [cinstr]; they are covered by the twins-only stream of the harness, not by this theorem. *)
+Theorem C17_exec_annotation_blind_partial : forall {A B} (f : A -> B) d n p s,
+  exec (f d) n (map (imap f) p) (map (gmap f) s) = omap (map (gmap f)) (exec d n p s).
 Proof. intros A B f d. exact (exec_gmap f d). Qed.
 Print Assumptions C17_exec_annotation_blind_partial.
 
+(* … in particular the fuel that suffices for a program suffices for every re-annotation of it *)
+Theorem C17_same_fuel_partial : forall {A B} (f : A -> B) d n p s,
+  exec d n p s <> OutOfFuel -> exec (f d) n (map (imap f) p) (map (gmap f) s) <> OutOfFuel.
+Proof. intros A B f d n p s. exact (exec_same_fuel f d n p s). Qed.
+Print Assumptions C17_same_fuel_partial.
+
 (* twins: two programs / stacks equal up to annotations (the same erasure) have the same erased result,
    the same failure, and (GPacked carries the Micheline) the same packed bytes *)
-Theorem C17_twins_partial : forall p p' s s',
+Theorem C17_twins_partial : forall n p p' s s',
   map (imap er) p = map (imap er) p' -> map erase s = map erase s' ->
-  rmap (map erase) (exec no_ann p s) = rmap (map erase) (exec no_ann p' s').
+  omap (map erase) (exec no_ann n p s) = omap (map erase) (exec no_ann n p' s').
 Proof. exact exec_twins. Qed.
 Print Assumptions C17_twins_partial.
 
@@ -88,8 +100,8 @@ Definition ex_comb : aval :=
     (GPair (ex_a [x62]) (GInt (ex_a [x63]) T_int 2)
        (GPair (ex_a [x64]) (GInt (ex_a [x65]) T_int 3) (GInt (ex_a [x66]) T_int 4))).
 Example C17_ex_get3 :
-  run_prog [IPush ex_comb; IGet 3] = Ok [GInt (ex_a [x63]) T_int 2] /\
-  exec tt [IPush (erase ex_comb); IGet 3] [] = Ok [GInt tt T_int 2] /\
+  run_prog [IPush ex_comb; IGet 3] = Done [GInt (ex_a [x63]) T_int 2] /\
+  exec tt 1 [IPush (erase ex_comb); IGet 3] [] = Done [GInt tt T_int 2] /\
   to_mich Optimized ex_comb = NSeq [NInt 1; NInt 2; NInt 3; NInt 4].
 Proof. repeat split. Qed.
 
@@ -101,5 +113,20 @@ Definition ex_ty : aty :=
 Example C17_ex_read :
   read ex_ty (NPrim P_Pair [NInt 1; NInt 2; NInt 3; NInt 4] []) = Some ex_comb /\
   run_prog [IPushT ex_ty (NSeq [NInt 1; NInt 2; NInt 3; NInt 4]); ISome;
-            IIfNone IUnit (ISeq IDup (IDip 1 (IGet 6)))] = Ok [ex_comb; GInt (ex_a [x66]) T_int 4].
+            IIfNone IUnit (ISeq IDup (IDip 1 (IGet 6)))] = Done [ex_comb; GInt (ex_a [x66]) T_int 4].
 Proof. split; reflexivity. Qed.
+
+(* the witness of defect #49 in the model: MAP { CAR } over a list of annotated pairs builds a list whose item type
+   is the ANONYMOUS type of the first result; a counting LOOP; fuel exhaustion is a distinguished outcome *)
+Definition ex_pair_ty : aty := TyPair no_ann (TyPrim (ex_a [x61]) T_int) (TyPrim no_ann T_nat).
+Example C17_ex_map_loop :
+  run_prog [IPushT (TyList no_ann ex_pair_ty) (NSeq [NPrim P_Pair [NInt 1; NInt 2] []; NPrim P_Pair [NInt 3; NInt 4] []]);
+            IMap ICar]
+  = Done [GCons no_ann (TyPrim no_ann T_int) (GInt (ex_a [x61]) T_int 1)
+            (GCons no_ann (TyPrim no_ann T_int) (GInt (ex_a [x61]) T_int 3) (GNil no_ann (TyPrim no_ann T_int)))] /\
+  run_prog [IPushT (TyPrim no_ann T_int) (NInt 3); IDup; ICmpOp O_GT;
+            ILoop (iseq [IPushT (TyPrim no_ann T_int) (NInt 1); ISwap; IArith O_SUB; IDup; ICmpOp O_GT])]
+  = Done [GInt no_ann T_int 0] /\
+  exec no_ann 2 [IPushT (TyPrim no_ann T_bool) (NPrim P_True [] []); ILoop (IPushT (TyPrim no_ann T_bool) (NPrim P_True [] []))] []
+  = OutOfFuel.
+Proof. repeat split; vm_compute; reflexivity. Qed.
